@@ -898,9 +898,16 @@ fn serde_case(rng: &mut Rng) {
     }
 }
 
-async fn recycle_history(rng: &mut Rng) -> usize {
+async fn recycle_history(rng: &mut Rng, srv: &resp::Server) -> usize {
     use deadpool_redis::redis::cmd;
-    let srv = resp::Server::start();
+    // one server per process (listening sockets and ports are scarce): this history's
+    // connections are the ones accepted from now on
+    let base = {
+        let mut st = srv.state.lock().unwrap();
+        st.replies.clear();
+        st.last_ping = None;
+        st.log.len()
+    };
     let max = 1 + rng.below(3);
     let len = 4 + rng.below(14);
     let pool = deadpool_redis::Config::from_url(format!("redis://127.0.0.1:{}", srv.port))
@@ -970,11 +977,11 @@ async fn recycle_history(rng: &mut Rng) -> usize {
                 let st = srv.state.lock().unwrap();
                 let mut pings: Vec<(usize, String, usize)> = Vec::new();
                 let mut order_ok = true;
-                for (idx, l) in st.log.iter().enumerate() {
+                for (idx, l) in st.log.iter().enumerate().skip(base) {
                     let from = before.get(idx).copied().unwrap_or(0);
                     for (j, c) in l.iter().enumerate().skip(from) {
                         if c[0].eq_ignore_ascii_case("PING") {
-                            pings.push((idx, c.get(1).cloned().unwrap_or_default(), j));
+                            pings.push((idx - base, c.get(1).cloned().unwrap_or_default(), j));
                             if j == 0 || !l[j - 1][0].eq_ignore_ascii_case("UNWATCH") {
                                 order_ok = false;
                             }
@@ -997,8 +1004,9 @@ async fn recycle_history(rng: &mut Rng) -> usize {
             }
             match r {
                 Ok(mut c) => {
-                    let who: i64 = cmd("WHOAMI").query_async(&mut c).await.unwrap_or(-1);
-                    let watched = srv.state.lock().unwrap().watched.get(who as usize).copied().unwrap_or(false);
+                    let raw: i64 = cmd("WHOAMI").query_async(&mut c).await.unwrap_or(-1);
+                    let watched = srv.state.lock().unwrap().watched.get(raw as usize).copied().unwrap_or(false);
+                    let who = if raw >= 0 { raw - base as i64 } else { raw };
                     hist.push(format!("get=ok:{who}[{}]", told.join(",")));
                     show(format!("res=ok:{who} pings=[{}] watched={}", shown.join(","), watched as u8));
                     held.push((c.into(), who as usize));
@@ -1040,7 +1048,7 @@ async fn recycle_history(rng: &mut Rng) -> usize {
             let mut raw = deadpool_redis::Connection::take(c);
             show("done".into());
             // the taken connection stays usable and is the same connection
-            let again: i64 = cmd("WHOAMI").query_async(&mut raw).await.unwrap_or(-1);
+            let again: i64 = cmd("WHOAMI").query_async(&mut raw).await.unwrap_or(-1) - base as i64;
             if again != who as i64 {
                 println!("rpx taken connection is {again}, expected {who}");
             }
@@ -1060,7 +1068,7 @@ fn main() {
     let seed = get("--seed", 1);
     let cases = get("--cases", 100);
     // panics are caught per case; keep their messages out of the protocol stream
-    std::panic::set_hook(Box::new(|_| {}));
+    std::panic::set_hook(Box::new(|i| { if std::env::var("HVERIF_DEBUG").is_ok() { eprintln!("panic: {i}"); } }));
     let mut rng = Rng(seed.wrapping_mul(0x2545F4914F6CDD1D) ^ 0xC19);
     match mode {
         "diff" => {
@@ -1082,9 +1090,10 @@ fn main() {
         }
         "recycle" => {
             let rt = tokio::runtime::Builder::new_current_thread().enable_all().build().unwrap();
+            let srv = resp::Server::start();
             let mut done = 0usize;
             while (done as u64) < cases {
-                done += rt.block_on(recycle_history(&mut rng));
+                done += rt.block_on(recycle_history(&mut rng, &srv));
             }
         }
         "probe" => {
@@ -1154,6 +1163,15 @@ pub mod resp {
     pub struct Server {
         pub port: u16,
         pub state: Arc<Mutex<ServerState>>,
+        stop: Arc<std::sync::atomic::AtomicBool>,
+    }
+
+    impl Drop for Server {
+        fn drop(&mut self) {
+            // let the accept thread go (and with it the listening socket)
+            self.stop.store(true, std::sync::atomic::Ordering::SeqCst);
+            let _ = TcpStream::connect(("127.0.0.1", self.port));
+        }
     }
 
     fn read_line(s: &mut TcpStream) -> Option<String> {
@@ -1262,8 +1280,13 @@ pub mod resp {
             let port = l.local_addr().unwrap().port();
             let state: Arc<Mutex<ServerState>> = Arc::default();
             let st = state.clone();
+            let stop: Arc<std::sync::atomic::AtomicBool> = Arc::default();
+            let stop2 = stop.clone();
             let _ = std::thread::spawn(move || {
                 for s in l.incoming().flatten() {
+                    if stop2.load(std::sync::atomic::Ordering::SeqCst) {
+                        break;
+                    }
                     let idx = {
                         let mut g = st.lock().unwrap();
                         g.log.push(Vec::new());
@@ -1274,7 +1297,7 @@ pub mod resp {
                     let _ = std::thread::spawn(move || serve(s, idx, st2));
                 }
             });
-            Server { port, state }
+            Server { port, state, stop }
         }
     }
 }
